@@ -153,8 +153,14 @@ def mkSwitch (k : Nat) (operand : Str) (tests : List (Str × List Str × Option 
   | some none => (.switch operand cases (cats ++ [dcat]) dcat.uuid (some none) rn, exits ++ [dexit])
   | none => (.switch operand cases (cats ++ [dcat]) dcat.uuid none rn, exits ++ [dexit])
 
+/-- the tests that take no argument (`RouterCase.NO_ARGS_TESTS`; tied to the source by
+`Props.C02.tables_agree`): the condition cell of such an edge carries no test argument -/
+def noArgsTests : List Str :=
+  ["has_date", "has_email", "has_error", "has_number", "has_state", "has_text", "has_time"].map String.toList
+
 def condTest (c : Cond) : Str × List Str :=
-  (if c.type.isEmpty then "has_any_word".toList else c.type, [c.value])
+  let ty := if c.type.isEmpty then "has_any_word".toList else c.type
+  (ty, if noArgsTests.contains ty then [] else [c.value])
 
 /-- variable named by the conditional edges of a non-split row (`none`: they name none) -/
 def condVar (conds : List OutEdge) : Option Str :=
